@@ -295,3 +295,15 @@ def national_summary_function(correlated, hard):
     except Exception as e:  # noqa
         out["exc"] = f"{type(e).__name__}: {e}"
     return out
+
+
+def gaussian_twice():
+    """two gaussian runs with equal arguments (fresh clients): the tables must be identical"""
+    base = synthetic(60, seed=1)
+    cur = feed(base, [100] * 40 + [35] * 20)
+    outs = []
+    for _ in range(2):
+        c, r = run_client(cur, base, estimands=("turnout",), pi_method="gaussian", prediction_intervals=(0.9,), aggregates=("postal_code", "county_classification", "unit"))
+        outs.append(r)
+    same = all(outs[0][k].equals(outs[1][k]) for k in outs[0])
+    return {"identical": bool(same)}
